@@ -183,11 +183,16 @@ pub fn get_solidity_version_from_source_unit(source_unit: SourceUnit) -> Option<
         let source_unit_part = node.source_unit_part().unwrap();
 
         if let SourceUnitPart::PragmaDirective(_, _, solidity_version_literal) = source_unit_part {
+            //A version component that is not a number that fits an i32 yields no version
             let minor_major_patch_version =
                 get_solidity_major_minor_patch_version(&solidity_version_literal.string)
                     .iter()
-                    .map(|f| f.parse::<i32>().unwrap())
-                    .collect::<Vec<i32>>();
+                    .map(|f| f.parse::<i32>().ok())
+                    .collect::<Option<Vec<i32>>>()?;
+
+            if minor_major_patch_version.len() != 3 {
+                return None;
+            }
 
             return Some((
                 minor_major_patch_version[0],
